@@ -6,7 +6,6 @@ import (
 	"bytes"
 	"fmt"
 	"math/rand/v2"
-	"sync"
 
 	"github.com/mycoria/mycoria/frame"
 	"github.com/mycoria/mycoria/state"
@@ -444,14 +443,7 @@ func (w *worker) runTuple(t tuple, exhaustiveBits bool) {
 	}
 }
 
-func parallel(n int, fn func(w int)) {
-	var wg sync.WaitGroup
-	for w := 0; w < n; w++ {
-		wg.Add(1)
-		go func(w int) { defer wg.Done(); fn(w) }(w)
-	}
-	wg.Wait()
-}
+func parallel(n int, fn func(w int)) { core.Parallel(n, fn) }
 
 func genTuples(r *rand.Rand, n int) []tuple {
 	payloads := []int{1, 2, 15, 16, 17, 44, 45, 100, 600 - 113, 600 - 65, 600, 1600 - 113, 1600, 1601, 5100 - 65, 5100, 9600 - 113, 9600, 9999, 10000}
